@@ -671,15 +671,9 @@ where
 		}
 		None => w.parent_key_id(),
 	};
-	// Don't do this multiple times
-	let tx = updater::retrieve_txs(
-		&mut *w,
-		None,
-		Some(ret_slate.id),
-		None,
-		Some(&parent_key_id),
-		use_test_rng,
-	)?;
+	// Don't do this multiple times (whichever of the wallet's accounts paid, or was about to
+	// pay, this invoice before)
+	let tx = updater::retrieve_txs(&mut *w, None, Some(ret_slate.id), None, None, use_test_rng)?;
 	for t in &tx {
 		if t.tx_type == TxLogEntryType::TxSent {
 			return Err(Error::TransactionAlreadyReceived(ret_slate.id.to_string()));
